@@ -791,6 +791,11 @@ func (c *Client) retry(ctx context.Context, command *proto.Command, nodeAddr str
 		if errOuter == nil {
 			break
 		}
+		if errors.Is(errOuter, errResponseTimeout) {
+			// The command reached the remote node, which may still be processing
+			// it. Sending it again could execute it twice.
+			return nil, nRetries, errOuter
+		}
 		nRetries++
 		stats.Add(numClientRetries, 1)
 
@@ -817,11 +822,19 @@ func (c *Client) retry(ctx context.Context, command *proto.Command, nodeAddr str
 	return p, nRetries, nil
 }
 
+// errResponseTimeout marks a timeout while waiting for the response to a command
+// which was written to the remote node in full.
+var errResponseTimeout = errors.New("timeout waiting for response")
+
 func writeCommandReadResponse(conn net.Conn, c *proto.Command, timeout time.Duration) (buf []byte, retErr error) {
 	if err := writeCommand(conn, c, timeout); err != nil {
 		return nil, err
 	}
-	return readResponse(conn, timeout)
+	b, err := readResponse(conn, timeout)
+	if err != nil && errors.Is(err, os.ErrDeadlineExceeded) {
+		return nil, fmt.Errorf("%w: %w", errResponseTimeout, err)
+	}
+	return b, err
 }
 
 func writeCommand(conn net.Conn, c *proto.Command, timeout time.Duration) error {
